@@ -349,3 +349,127 @@ def rv_expr(prog, w):
     if st["k"] == "=":
         return body.expr_of_rvalue(st["rv"])
     return ("other", st["k"])
+
+
+def guard_variants(prog, discr_expr, val):
+    """Set of variant names a guard (discr(e), val) admits; val may be ('not', [values])."""
+    allv = all_variants(prog, discr_expr)
+    if isinstance(val, tuple) and val[0] == "not":
+        excl = {variant_of_discr_value(prog, discr_expr, v) for v in val[1]}
+        return set(allv) - excl
+    v = variant_of_discr_value(prog, discr_expr, val)
+    return {v} if v else set()
+
+
+def possible_returns(prog, fn_key, table, depth=0):
+    """Possible truth values ({True, False, None=unknown}) returned by a local bool function under the assumed results
+    `table` = {callee path: bool} of the predicates it calls (one level of local helper calls is followed)."""
+    fn = prog.fn(fn_key)
+    if fn is None:
+        return {None}
+    body = fn.body
+
+    def assume(body_, b, t, e):
+        pol = True
+        while e[0] == "unop" and e[1] == "Not":
+            e = e[2]
+            pol = not pol
+        if e[0] != "call":
+            return None
+        for k, truth in table.items():
+            if e[1] == k or e[1].endswith("::" + k):
+                return switch_targets_for(t, truth if pol else (not truth))
+        if depth < 2 and e[1] in prog.fns:
+            r = possible_returns(prog, e[1], table, depth + 1)
+            if r == {True}:
+                return switch_targets_for(t, pol)
+            if r == {False}:
+                return switch_targets_for(t, not pol)
+        return None
+    reached, _ = PEval(body, assume).run()
+    out = set()
+    for d in body.defs().get(0, []):
+        if d[1] not in reached:
+            continue
+        if d[0] == "stmt" and d[3]["k"] == "=":
+            e = body.expr_of_rvalue(d[3]["rv"])
+            pol = True
+            while e[0] == "unop" and e[1] == "Not":
+                e = e[2]
+                pol = not pol
+            if e[0] == "const" and "int" in e[1]:
+                out.add(bool(e[1]["int"]) == pol)
+            elif e[0] == "call":
+                out |= _call_truth(prog, e[1], table, depth, pol, e)
+            else:
+                out.add(None)
+        elif d[0] == "call":
+            out |= _call_truth(prog, callee_path(d[2]), table, depth, True)
+    return out or {None}
+
+
+TRANSPARENT = {"rt::execution", "rt::synchronize"}   # wrappers returning their closure's result (validated by rule P2-wrapper)
+
+
+def _closure_arg(e):
+    for a in e[2]:
+        a = strip(a)
+        if a[0] == "agg" and isinstance(a[1], str) and "{closure#" in a[1]:
+            return a[1]
+    return None
+
+
+def _call_truth(prog, path, table, depth, pol, expr=None):
+    if path in TRANSPARENT and expr is not None and depth < 3:
+        ck = _closure_arg(expr)
+        if ck and ck in prog.fns:
+            r = possible_returns(prog, ck, table, depth + 1)
+            return {(x if pol else (not x)) if x is not None else None for x in r}
+    for k, truth in table.items():
+        if path == k or path.endswith("::" + k):
+            return {truth if pol else (not truth)}
+    if depth < 2 and path in prog.fns:
+        r = possible_returns(prog, path, table, depth + 1)
+        return {(x if pol else (not x)) if x is not None else None for x in r}
+    return {None}
+
+
+def assume_scenario(prog, table):
+    """PEval assumption: switches on (negated) calls whose result is determined by `table`, following local bool helpers."""
+    def a(body, b, t, e):
+        pol = True
+        while e[0] == "unop" and e[1] == "Not":
+            e = e[2]
+            pol = not pol
+        if e[0] != "call":
+            return None
+        r = _call_truth(prog, e[1], table, 0, pol, e)
+        if r == {True}:
+            return switch_targets_for(t, True)
+        if r == {False}:
+            return switch_targets_for(t, False)
+        return None
+    return a
+
+
+def is_std_collection_call(key, method):
+    """`method` of any std collection (HashMap, BTreeMap, HashSet, VecDeque, Vec ...): rules must not depend on which
+    container type the repository uses."""
+    return (key.startswith("std::collections::") or key.startswith("std::vec::Vec::<") or key.startswith("alloc::")) and \
+        key.endswith("::" + method)
+
+
+def assume_collection_calls(table):
+    """Like assume_calls, keyed by collection method name (any std collection type)."""
+    def a(body, b, t, e):
+        pol = True
+        while e[0] == "unop" and e[1] == "Not":
+            e = e[2]
+            pol = not pol
+        if e[0] != "call":
+            return None
+        for m, truth in table.items():
+            if is_std_collection_call(e[1], m):
+                return switch_targets_for(t, truth if pol else (not truth))
+        return None
+    return a
